@@ -591,25 +591,36 @@ class List(list, base.Symbolic, pg_typing.CustomTyping):
           self._error_message('Cannot delete List item while accessor_writable '
                               'is set to False. '
                               'Use \'rebind\' method instead.'))
-    if not isinstance(index, numbers.Integral):
+    if isinstance(index, slice):
+      indices = sorted(range(*index.indices(len(self))))
+    elif not isinstance(index, numbers.Integral):
       raise TypeError(
           f'list index must be an integer. Encountered {index!r}.')
-
-    if index < -len(self) or index >= len(self):
+    elif index < -len(self) or index >= len(self):
       raise IndexError(
           f'list index out of range. '
           f'Length={len(self)}, index={index}')
+    else:
+      indices = [index if index >= 0 else index + len(self)]
+    self._delete_items(indices)
 
-    old_value = self.sym_getattr(index)
-    super().__delitem__(index)
-
+  def _delete_items(self, indices: typing.List[int]) -> None:
+    """Deletes items at sorted indices, detaching them from the tree."""
+    if not indices:
+      return
+    updates = []
+    field = self._value_spec.element if self._value_spec else None
+    for i in reversed(indices):
+      old_value = list.__getitem__(self, i)
+      list.__delitem__(self, i)
+      if isinstance(old_value, base.TopologyAware):
+        old_value.sym_setparent(None)
+      updates.append(base.FieldUpdate(
+          self.sym_path + i, self, field, old_value, pg_typing.MISSING_VALUE))
+    self._reindex_children(indices[0])
+    updates.reverse()
     if flags.is_change_notification_enabled():
-      self._notify_field_updates([
-          base.FieldUpdate(
-              self.sym_path + index, self,
-              self._value_spec.element if self._value_spec else None,
-              old_value, pg_typing.MISSING_VALUE)
-      ])
+      self._notify_field_updates(updates)
 
   def __add__(self, other: Iterable[Any]) -> 'List':
     """Returns a concatenated List of self and other."""
